@@ -6,17 +6,15 @@
 From Verif Require Import Lib.Str Extract.Decimal Extract.Model Extract.Proofs.
 Open Scope Z_scope.
 
-(** The property at full strength (false of the faithful model today, see the [_refuted] theorems):
-    for every package, every generated row denotes what the contract prescribes for its
-    declaration, the same names are bound, every wrapper forwards, and the file compiles. *)
-Definition C18_statement : Prop :=
-  forall p, wf_pkg p = true ->
-    forallb (decl_agreeb p) (pk_decls p) = true
-    /\ map fst (y_vals p) = map fst (g_vals p)
-    /\ map fst (y_typs p) = map fst (g_typs p)
-    /\ map fst (y_wraps p) = map fst (g_wraps p)
-    /\ (forall name i, forwards (y_wrap (y_prefix (pk_ipath p)) name i) i)
-    /\ y_compiles p = true.
+(** The property at full strength (Extract/Model.v [c18_statement]; false of the faithful model
+    today, see [C18_refuted] and the other [_refuted] theorems): for every package, every
+    generated row denotes what the contract prescribes for its declaration, the same names are
+    bound, every wrapper forwards, and the file compiles. *)
+Definition C18_statement : Prop := c18_statement.
+
+Theorem C18_refuted : ~ C18_statement.
+Proof. exact statement_refuted. Qed.
+Print Assumptions C18_refuted.
 
 (* ---------------- names and forms (all declaration lists) ---------------- *)
 
